@@ -12,7 +12,8 @@ CONSTANTS Progs,        \* "tiny" | "core" | "rich": which AST set Init draws fr
           MaxGap,       \* at most this many layout items between two tokens
           LayoutKinds   \* subset of Layouts the renderer may use (small for exhaustive runs, all for simulation)
 Scalars == {<<"int", "i1">>, <<"float", "f1">>, <<"str", "s1", "dq">>, <<"str", "s2", "sq">>, <<"str", "w1", "bare">>, <<"bool", "True">>,
-            <<"str", "w3", "bare">>}        \* w3: unquoted strings containing a colon, only ever whole argument values
+            <<"str", "w3", "bare">>,
+            <<"str", "sm", "dq">>}        \* w3: unquoted strings containing a colon, only ever whole argument values
 ValsCore == Scalars \cup {<<"list", <<>>>>, <<"list", <<<<"int", "i2">>, <<"str", "w2", "bare">>>>>>,
                           <<"list", <<<<"list", <<<<"float", "f2">>>>>>, <<"list", <<>>>>, <<"str", "s3", "dq">>>>>>,
                           <<"tuple", <<<<<<"str", "k1", "bare">>, <<"str", "s1", "dq">>>>>>>>,
@@ -32,13 +33,16 @@ VARIABLES prog, tc, toks, pos, out, line, gap, starts
 vars == <<prog, tc, toks, pos, out, line, gap, starts>>
 Layouts == {"SP", "TAB", "NL", "CRNL", "CMT", "BL"}
 NLs(k) == CASE k \in {"NL", "CRNL", "CMT"} -> 1 [] k = "BL" -> 2 [] OTHER -> 0
+\* "sm" is a quoted string written over two lines (a raw line break between the quotes): the token itself moves the line
+TokNLs(t) == IF t[1] = "QSTR" /\ t[2][1] = "sm" THEN 1 ELSE 0
 
 Init == /\ prog \in ProgSet /\ tc \in BOOLEAN /\ toks = Flat(prog, tc)
         /\ pos = 1 /\ out = <<>> /\ line = 1 /\ gap = 0 /\ starts = <<>>
 Emit == /\ pos <= Len(toks)
         /\ out' = Append(out, <<"T", pos>>) /\ pos' = pos + 1 /\ gap' = 0
         /\ starts' = starts \o [k \in 1..Len(toks[pos][3]) |-> <<toks[pos][3][k], line>>]
-        /\ UNCHANGED <<prog, tc, toks, line>>
+        /\ line' = line + TokNLs(toks[pos])
+        /\ UNCHANGED <<prog, tc, toks>>
 Layout(k) == /\ gap < MaxGap /\ (pos <= Len(toks) \/ k \in {"NL", "CMT", "SP"})
              /\ out' = Append(out, <<"L", k>>) /\ gap' = gap + 1 /\ line' = line + NLs(k)
              /\ UNCHANGED <<prog, tc, toks, pos, starts>>
@@ -52,7 +56,7 @@ TokensOf(o) == LET ix == SelectSeq(o, LAMBDA it : it[1] = "T") IN [k \in 1..Len(
 RoundTrip == Done => LET r == Denote(TokensOf(out)) IN r.ok /\ r.ast = prog
 \* C11: a node starts on line 1 + (line breaks written before its first token); CRLF is one line break
 RECURSIVE CountNL(_)
-CountNL(o) == IF o = <<>> THEN 0 ELSE (IF Head(o)[1] = "L" THEN NLs(Head(o)[2]) ELSE 0) + CountNL(Tail(o))
+CountNL(o) == IF o = <<>> THEN 0 ELSE (IF Head(o)[1] = "L" THEN NLs(Head(o)[2]) ELSE TokNLs(toks[Head(o)[2]])) + CountNL(Tail(o))
 LinesTrue == \A s \in 1..Len(starts) :
                 LET path == starts[s][1]
                     k == CHOOSE k \in 1..Len(toks) : \E m \in 1..Len(toks[k][3]) : toks[k][3][m] = path
